@@ -429,8 +429,9 @@ Fixpoint race_free (st : state) (ls : list label) : bool :=
 Inductive ev :=
 | ECall (c k : nat) (o : outcome)
 | EResume (t : nat)
-| EFill (c k0 n : nat) (v0 sz : Z)  (* n sequential Get calls for the keys k0, k0+1, ... with loader values v0, v0+1, ...
-                                       and size sz, each running to completion before the next *)
+| EFill (fresh : bool) (c k0 n : nat) (v0 sz : Z)  (* n sequential Get calls for the keys k0, k0+1, ... with loader values v0, v0+1, ...
+                                       and size sz, each running to completion before the next;
+                                       fresh = all keys are new (every loader runs) / false = all are cached (hits) *)
 | EResumeSave (t : nat)  (* the loader of t returns a value; t runs save up to (not including) gen.size.Add: it is
                             parked at the schedule point verifhook.At("cache.save.after-unlock"); waiters wake up *)
 | EAdd (t : nat)         (* t, parked there, does its gen.size.Add and returns *)
@@ -531,7 +532,7 @@ Definition exec_ev (st : state) (e : ev) : option (state * list Z) :=
           end
       | _ => None
       end
-  | EFill c k0 n v0 sz => match fill n c k0 v0 sz st with Some st' => Some (st', []) | None => None end
+  | EFill _ c k0 n v0 sz => match fill n c k0 v0 sz st with Some st' => Some (st', []) | None => None end
   | EResumeSave t =>
       match thread_pc st t with
       | Some (PLoad e) =>
